@@ -19,11 +19,11 @@ REPO = os.environ.get("VF_REPO", "/repo")
 VERIF = os.path.dirname(os.path.dirname(os.path.abspath(__file__)))
 BUILD = os.path.join(VERIF, "build")
 CXX = "clang++"
-FLAGSET_VERSION = "7"
+FLAGSET_VERSION = "8"
 
 INSTR = ["-fsanitize=thread", "-mllvm", "-tsan-instrument-func-entry-exit=0", "-mllvm", "-tsan-instrument-memintrinsics=0"]
 INSTR_SC = INSTR + ["-mllvm", "-tsan-instrument-memory-accesses=0"]
-COMMON = ["-std=c++17", "-O1", "-w", "-mrtm", "-mwaitpkg", "-pthread", "-fno-omit-frame-pointer",
+COMMON = ["-std=c++17", "-O1", "-gline-tables-only", "-w", "-mrtm", "-mwaitpkg", "-pthread", "-fno-omit-frame-pointer",
           "-DONETBB_VERIF=1", "-D__TBB_DYNAMIC_LOAD_ENABLED=0", "-D__TBB_RESUMABLE_TASKS_USE_THREADS=0",
           "-D__TBB_NO_IMPLICIT_LINKAGE=1", "-D__TBBMALLOC_NO_IMPLICIT_LINKAGE=1",
           "-I" + os.path.join(REPO, "include"), "-I" + os.path.join(VERIF, "engine")]
@@ -47,8 +47,17 @@ def sh(cmd, **kw):
 def tree_hash():
     h = hashlib.sha1()
     h.update(FLAGSET_VERSION.encode())
-    roots = [os.path.join(REPO, "include"), os.path.join(REPO, "src", "tbb"), os.path.join(REPO, "src", "tbbmalloc"),
-             os.path.join(VERIF, "engine")]
+    roots = [os.path.join(REPO, "include"), os.path.join(REPO, "src", "tbb"), os.path.join(REPO, "src", "tbbmalloc")]
+    return _hash_roots(h, roots)
+
+
+def engine_hash():
+    h = hashlib.sha1()
+    h.update(FLAGSET_VERSION.encode())
+    return _hash_roots(h, [os.path.join(VERIF, "engine")])[:8]
+
+
+def _hash_roots(h, roots):
     for root in roots:
         for d, dn, fn in sorted(os.walk(root)):
             dn.sort()
@@ -92,13 +101,13 @@ class BuildError(Exception):
 
 
 def parse_spec(src):
-    spec = {"tbb": False, "malloc": False, "whitebox": False, "vtbb": False, "variant": "sc", "extra": [], "noinstr": False}
+    spec = {"tbb": False, "malloc": False, "whitebox": False, "vtbb": False, "variant": "sc", "extra": [], "noinstr": False, "access": False}
     with open(src) as f:
         for line in f:
             m = re.match(r"\s*//\s*VF-BUILD:\s*(.*)", line)
             if m:
                 for tok in m.group(1).split():
-                    if tok in ("tbb", "malloc", "whitebox", "vtbb", "noinstr"):
+                    if tok in ("tbb", "malloc", "whitebox", "vtbb", "noinstr", "access"):
                         spec[tok] = True
                     elif tok.startswith("variant="):
                         spec["variant"] = tok.split("=", 1)[1]
@@ -120,7 +129,7 @@ def build(harnesses, verbose=False):
         # garbage-collect older trees (keep the two most recent besides this one)
         olds = sorted([d for d in os.listdir(BUILD) if d != key and os.path.isdir(os.path.join(BUILD, d))],
                       key=lambda d: os.path.getmtime(os.path.join(BUILD, d)))
-        for d in olds[:-2]:
+        for d in olds[:-3]:
             shutil.rmtree(os.path.join(BUILD, d), ignore_errors=True)
         os.utime(root, None)
         specs = {h: parse_spec(os.path.join(VERIF, "harness", h + ".cpp")) for h in harnesses}
@@ -129,7 +138,8 @@ def build(harnesses, verbose=False):
         need_malloc = any(s["malloc"] for s in specs.values())
         jobs = []
         # engine (never instrumented)
-        edir = os.path.join(root, "engine")
+        ekey = engine_hash()
+        edir = os.path.join(root, "engine-" + ekey)
         os.makedirs(edir, exist_ok=True)
         for f in ("vsched.cpp", "vrt.cpp"):
             jobs.append(([CXX, "-std=c++17", "-O2", "-w", "-pthread", "-fno-omit-frame-pointer", "-I" + os.path.join(VERIF, "engine"), "-c", os.path.join(VERIF, "engine", f)],
@@ -148,23 +158,31 @@ def build(harnesses, verbose=False):
                 for f in ("frontend.cpp", "backend.cpp", "large_objects.cpp", "backref.cpp", "tbbmalloc.cpp"):
                     jobs.append(([CXX] + COMMON + instr + ["-D__TBBMALLOC_BUILD", "-fno-rtti", "-fno-exceptions", "-c", os.path.join(REPO, "src", "tbbmalloc", f)], os.path.join(mdir, f[:-4] + ".o")))
             if any(s["vtbb"] and s["variant"] == var for s in specs.values()):
-                jobs.append(([CXX] + COMMON + instr + ["-D__TBB_BUILD", "-fno-access-control", "-iquote", os.path.join(REPO, "src", "tbb"), "-c", os.path.join(VERIF, "engine", "vtbb.cpp")], os.path.join(root, "vtbb-%s.o" % var)))
+                jobs.append(([CXX] + COMMON + instr + ["-D__TBB_BUILD", "-fno-access-control", "-iquote", os.path.join(REPO, "src", "tbb"), "-c", os.path.join(VERIF, "engine", "vtbb.cpp")], os.path.join(edir, "vtbb-%s.o" % var)))
         # harness objects
         bdir = os.path.join(root, "bin")
         os.makedirs(bdir, exist_ok=True)
         hobjs = {}
         for h, s in specs.items():
             src = os.path.join(VERIF, "harness", h + ".cpp")
-            hh = file_hash(src)
+            hh = file_hash(src) + ekey[:4]
             for inc in ("vfh.h",):
                 ip = os.path.join(VERIF, "harness", inc)
                 if os.path.exists(ip):
                     hh += file_hash(ip)[:6]
             obj = os.path.join(bdir, "%s.%s.o" % (h, hh))
+            for old in os.listdir(bdir):   # drop stale builds of this harness
+                if old.startswith(h + ".") and not old.startswith("%s.%s" % (h, hh)) and ".tmp" not in old:
+                    try:
+                        os.remove(os.path.join(bdir, old))
+                    except OSError:
+                        pass
             instr = [] if s["noinstr"] else (INSTR_SC if s["variant"] == "sc" else INSTR)
             cmd = [CXX] + COMMON + instr + ["-I" + os.path.join(VERIF, "harness")]
             if s["whitebox"] or s["vtbb"]:
                 cmd += ["-fno-access-control", "-iquote", os.path.join(REPO, "src", "tbb"), "-D__TBB_BUILD"]
+            if s["access"]:
+                cmd += ["-fno-access-control"]
             if s["malloc"] and s["whitebox"]:
                 cmd += ["-iquote", os.path.join(REPO, "src", "tbbmalloc")]
             cmd += s["extra"] + ["-c", src]
@@ -183,7 +201,7 @@ def build(harnesses, verbose=False):
             objs = [obj, os.path.join(edir, "vsched.o"), os.path.join(edir, "vrt.o")]
             var = s["variant"]
             if s["vtbb"]:
-                objs.append(os.path.join(root, "vtbb-%s.o" % var))
+                objs.append(os.path.join(edir, "vtbb-%s.o" % var))
                 tdir = os.path.join(root, "tbb-" + var)
                 objs += [os.path.join(tdir, f[:-4] + ".o") for f in sorted(VTBB_KEEP)]
             elif s["tbb"]:
